@@ -11,6 +11,7 @@ CONSTANTS
   MaxOps = 8
   GenHist = TRUE
   F2Fixed = FALSE
+  CuGuard = FALSE
   Profile = "c05"
 INIT Init
 NEXT GenNext
